@@ -44,6 +44,10 @@ def _f(lean, cxx, anchor, **kw):
 FUNCS = [
     dict(lean="pool_Ceil", prop="C09", cxx="internal::UIntMath::Ceil", header="Utility.h",
          anchor=r"static constexpr UInt Ceil\(UInt value, UInt mod\) noexcept", params=[("value", U64), ("mod", U64)], ret=U64, lean_type="Nat"),
+    _f("pool_GetBlockAlignment", "MemPoolConst::GetBlockAlignment",
+       r"static constexpr size_t GetBlockAlignment\(size_t blockSize,\s*size_t maxAlignment = momo::internal::UIntConst::maxAlignment\) noexcept",
+       params=[_S, ("maxAlignment", U64)], ret=U64, lean_type="Nat", recfuel=64,
+       calls={"GetBlockAlignment": ("pool_GetBlockAlignment_fuel fuel", [U64, U64], U64, [])}),
     _f("pool_CorrectBlockSize", "MemPoolConst::CorrectBlockSize",
        r"static constexpr size_t CorrectBlockSize\(size_t blockSize, size_t blockAlignment,\s*size_t blockCount\) noexcept",
        params=[_S, _A, _N], ret=U64, lean_type="Nat", calls={"internal::UIntMath<>::Ceil": _CEIL}),
